@@ -28,7 +28,23 @@ pub struct Case {
     /// extra contacts that the puppets name but to which every send_to fails with an io error
     #[serde(default)]
     unsendable: u8,
+    /// extra contacts that the puppets name and that never answer (each costs the bootstrap two
+    /// 500 ms timeouts per pass)
+    #[serde(default)]
+    silent_named: u8,
+    /// puppets' answer delay in ms (0 makes bootstrap passes take whole multiples of 500 ms, so
+    /// that completions coincide with refresh deadlines to the millisecond)
+    #[serde(default = "ten")]
+    rtt_ms: u8,
+    /// a stranger pings the node every `.0` ms and the node's send of each reply takes `.1` ms
+    /// (busy event loop while timers and bootstrap completions pile up)
+    #[serde(default)]
+    busy: Option<(u16, u16)>,
     rt_seed: u64,
+}
+
+fn ten() -> u8 {
+    10
 }
 
 pub struct Cadence;
@@ -51,8 +67,9 @@ impl Stage for Cadence {
             prop_oneof![2 => Just(vec![]), 1 => vec((0u32..7000, 1u32..900), 1..4)],
             prop_oneof![2 => Just(0u8), 1 => 1u8..4],
             any::<u64>(),
+            (prop_oneof![2 => Just(0u8), 2 => 1u8..4], prop_oneof![3 => Just(0u8), 2 => Just(10u8), 2 => 0u8..50], proptest::option::weighted(0.4, (300u16..1500, 10u16..70).prop_map(|(period, pct)| (period, (period as u32 * pct as u32 / 100) as u16)))),
         )
-            .prop_map(|(v6, puppets, gossip, secs, outages, unsendable, rt_seed)| Case { v6, puppets, gossip, secs, outages, unsendable, rt_seed })
+            .prop_map(|(v6, puppets, gossip, secs, outages, unsendable, rt_seed, (silent_named, rtt_ms, busy))| Case { v6, puppets, gossip, secs, outages, unsendable, silent_named, rtt_ms, busy, rt_seed })
             .boxed()
     }
     fn run(&self, c: &Case) -> Outcome {
@@ -61,8 +78,13 @@ impl Stage for Cadence {
             counters::reset();
             let bad: Vec<SocketAddr> = (0..c.unsendable).map(|i| fam_addr(c.v6, 800 + i as u16, 7000)).collect();
             let bad2 = bad.clone();
-            let net = SimNet::new(Box::new(move |d: &Dgram| if bad2.contains(&d.to) { Fate::SendError } else { Fate::Deliver(vec![Duration::ZERO]) }));
             let node = fam_addr(c.v6, 1, 6881);
+            let pinger = fam_addr(c.v6, 990, 9990);
+            let base = move |d: &Dgram| if bad2.contains(&d.to) { Fate::SendError } else { Fate::Deliver(vec![Duration::ZERO]) };
+            let net = SimNet::new(Box::new(SlowSends { inner: base, node, to: vec![pinger], ms: c.busy.map(|b| b.1 as u64).unwrap_or(0) }));
+            if let Some((period, _)) = c.busy {
+                spawn_pinger(&net, pinger, node, 100, period as u64, (c.secs as u64 * 1000 / period as u64) as u32);
+            }
             let node_id: Id = [0x18; 20];
             let outages = Arc::new(c.outages.clone());
             let mut names: Vec<(Id, SocketAddr)> = vec![];
@@ -79,6 +101,13 @@ impl Stage for Cadence {
                 id[3] = 0xbd;
                 named_all.push((id, *a));
             }
+            for i in 0..c.silent_named {
+                let mut id = [0u8; 20];
+                id[0] = 0x20 | i;
+                id[3] = 0x51;
+                named_all.push((id, fam_addr(c.v6, 850 + i as u16, 7000))); // nobody listens there
+            }
+            let rtt = c.rtt_ms as u64;
             for (id, a) in names.clone() {
                 let outages = outages.clone();
                 let named = named_all.clone();
@@ -92,7 +121,7 @@ impl Stage for Cadence {
                         return vec![];
                     }
                     let (nodes, nodes6) = node_lists(&named);
-                    vec![Out::after(10, from, &resp(&m.tid, KResp { id: id.to_vec(), nodes, nodes6, ..Default::default() }))]
+                    vec![Out::after(rtt, from, &resp(&m.tid, KResp { id: id.to_vec(), nodes, nodes6, ..Default::default() }))]
                 });
             }
             let dht = start_node(&net, &NodeCfg { addr: node, id: node_id, read_only: false, nodes: names.iter().map(|n| n.1).collect(), routers: vec![], announce_port: None });
@@ -109,6 +138,9 @@ impl Stage for Cadence {
                     return Outcome::violation("several-pending-refresh-checks", format!("at t={t} ms {} refresh checks are scheduled at once (after {} bootstrap completions)", k.pending_refresh_checks, k.bootstrap_completions));
                 }
                 samples.push((t, k.refresh_rounds, k.bootstrap_completions));
+                if std::env::var_os("VERIF_DEBUG").is_some() {
+                    eprintln!("t={t} rounds={} completions={} pending_refresh={} pending_all={}", k.refresh_rounds, k.bootstrap_completions, k.pending_refresh_checks, k.pending_checks);
+                }
             }
             let alive = within(Duration::from_secs(2), dht.get_state()).await.flatten().is_some();
             if !alive {
@@ -135,7 +167,7 @@ impl Stage for Cadence {
         })
     }
     fn rule(&self) -> String {
-        "one real serving node with 1..9 answering contacts (fewer than 10 good nodes: re-bootstrap every ~5 s) or 12..20 (no re-bootstrap), optional outages, contacts naming each other or not, optionally 1..3 named contacts to which every send fails with an io error; run length 10 min..2 h (thorough: ..12 h); hook counters sampled every 2.5 virtual seconds. Oracle: for all sample pairs t1<t2, refresh rounds in (t1,t2] <= (t2-t1)/6 s + 1 + bootstrap completions in (t1,t2]; never more than one refresh check pending. Non-trivial: >= 20 bootstrap completions and run >= 30 min".into()
+        "one real serving node with 1..9 answering contacts (fewer than 10 good nodes: re-bootstrap every ~5 s) or 12..20 (no re-bootstrap), optional outages, contacts naming each other or not, optionally 1..3 named contacts to which every send fails with an io error, 1..3 named contacts that never answer, answer delays of 0 (exact-millisecond coincidences of bootstrap completions with refresh deadlines), 10 or 0..49 ms, optionally a stranger pinging the node every 0.3..1.5 s whose replies take 10..70 % of that period to send (busy, but not overloaded, event loop); run length 10 min..2 h (thorough: ..12 h); hook counters sampled every 2.5 virtual seconds. Oracle: for all sample pairs t1<t2, refresh rounds in (t1,t2] <= (t2-t1)/6 s + 1 + bootstrap completions in (t1,t2]; never more than one refresh check pending. Non-trivial: >= 20 bootstrap completions and run >= 30 min".into()
     }
     fn watchdog_secs(&self, tier: Tier) -> u64 {
         tier.pick(900, 3600)
